@@ -54,6 +54,8 @@ ASSUMPTIONS = [
     "an override of onLeave/onDisconnect that never calls the default body takes over its clean-up duty; at least one "
     "of the two default bodies runs",
     "lifecycle messages (HELLO, GOODBYE, ABORT, AUTHENTICATE) are accepted by ITransport.send",
+    "callbacks_ordered_once_twisted: user code does not call join() itself (a session that joins again on the same "
+    "transport, e.g. from onLeave, is supported by the code and outside the per-connection clause of the property)",
 ]
 MANIFEST_ENTRY = {
     "technique": "Lean 4 theorems over arbitrary event histories of an executable session model (lifecycle part) + "
